@@ -170,6 +170,11 @@ let () =
            | "depth" -> string_of_int (int_of_nat (depth !cur))
            | "minimal" -> str_nats (minimal_ids !cur)
            | "find" -> (match find_node !cur (space_of_string (a 1)) with None -> "none" | Some i -> string_of_int (int_of_nat i))
+           | "aseeds" ->
+               (* aseeds SIZE MINTAPE NFVSTAPE *)
+               let nt = if a 3 = "-" then [] else List.map (fun l -> if l = "~" then [] else nats_of_string l) (String.split_on_char '/' (a 3)) in
+               let (d1, r) = expand_aseeds !fuel !net !cfg !cur (opt_nat (a 1)) (spaces_of_string (a 2)) nt in
+               cur := d1; "result=" ^ str_result r ^ " " ^ dump d1
            | "block" ->
                (* block MAA OPTSRC SIZE TAPE(bits) *)
                let tape = if a 4 = "-" then [] else List.init (String.length (a 4)) (fun i -> (a 4).[i] = '1') in
